@@ -654,9 +654,7 @@ class Predicate(metaclass=abc.ABCMeta):
             items = {p: {f.origin for f in Column.dissect(p)} for p in predicates}
             if collections.Counter(len(s) == 1 for s in items.values())[True] != len(predicates):
                 raise ValueError('Repeated or non-primitive predicates')
-            self._items: typing.Mapping['dsl.Table', 'dsl.Predicate'] = types.MappingProxyType(
-                {s.pop(): p for p, s in items.items()}
-            )
+            self._items: typing.Mapping['dsl.Table', 'dsl.Predicate'] = {s.pop(): p for p, s in items.items()}
 
         @classmethod
         def merge(
